@@ -233,7 +233,8 @@ def harnesses(tier):
 
 ALLOWED = {
     'cmd_run': {'tally.commands.run.cmd_run:os.makedirs', 'tally.report.write_summary_file_vue:.write_text',
-                'tally.cli._migrate_csv_to_rules:open(w)', 'tally.cli._migrate_csv_to_rules:shutil.move', 'tally.cli._migrate_csv_to_rules:open(a)'},
+                'tally.cli._migrate_csv_to_rules:open(w)', 'tally.cli._migrate_csv_to_rules:shutil.move', 'tally.cli._migrate_csv_to_rules:open(a)',
+                'tally.cli._migrate_csv_to_rules:os.replace'},        # (the migration's settings update: temporary file renamed over settings.yaml; guarded by --migrate, see the guard clause)
     'cmd_explain': set(), 'cmd_discover': set(), 'cmd_diag': set(), 'cmd_inspect': set(),
 }
 MODS = {'cmd_run': 'run', 'cmd_explain': 'explain', 'cmd_discover': 'discover', 'cmd_diag': 'diag', 'cmd_inspect': 'inspect'}
